@@ -142,7 +142,7 @@ def r7_2(ctx):
     ctx.check(ok, f.fq, "if show_edge: yield left / right", f.where, "one left and one right edge per line under box and show_edge", "edge segments are not emitted exactly once each per line under `_box and show_edge`")
     ok = len(divs) == 1 and set(guards(divs[0])) == {"not last_cell", "_box"}
     ctx.check(ok, f.fq, "if not last_cell: yield divider", f.where, "one divider between adjacent cells under box", "column dividers are not emitted exactly between adjacent cells under `_box`")
-    ctx.check("left, right, _divider = box_segments[" in norm(f.node), f.fq, "box_segments", f.where, "edge/divider segments come from the box", "edge and divider segments are not taken from box_segments")
+    ctx.shape("left, right, _divider = box_segments[" in norm(f.node), f.fq, "box_segments", f.where, "edge/divider segments come from the box", "edge and divider segments are not taken from box_segments")
     ctx.check(any(isinstance(n, ast.Assign) and norm(n.targets[0]) == "show_edge" and norm(n.value) == "self.show_edge" for n in walk_local(f.node)), f.fq, "show_edge = self.show_edge", f.where, "emission uses the same show_edge flag", "show_edge in _render is not self.show_edge")
     for cl in walk_local(f.node):
         if isinstance(cl, ast.Call) and norm(cl.func).endswith(".get_row"):
@@ -179,7 +179,7 @@ def r7_3(ctx):
     init = ctx.repo.fn("box:Box.__init__")
     src = norm(init.node)
     n_unpack = sum(1 for n in walk_local(init.node) if isinstance(n, ast.Assign) and isinstance(n.targets[0], ast.Tuple) and len(n.targets[0].elts) == 4 and norm(n.value).startswith("iter(line"))
-    ctx.check(n_unpack == 8 and "line1, line2, line3, line4, line5, line6, line7, line8 = box.splitlines()" in src, init.fq, "8 x 4 unpack", init.where, "Box.__init__ unpacks 8 lines of 4 glyphs", "Box.__init__ no longer unpacks 8 lines of 4 glyphs")
+    ctx.shape(n_unpack == 8 and "line1, line2, line3, line4, line5, line6, line7, line8 = box.splitlines()" in src, init.fq, "8 x 4 unpack", init.where, "Box.__init__ unpacks 8 lines of 4 glyphs", "Box.__init__ no longer unpacks 8 lines of 4 glyphs")
     for name in ("get_top", "get_bottom", "get_row"):
         f = ctx.repo.fn(f"box:Box.{name}")
         aliases = alias_map(f.node)
@@ -245,7 +245,7 @@ def r7_4(ctx):
     ctx.rule("R7.4", "rows in insertion order: add_row appends to every column's cell list and to rows; _render zips the columns' cells in order; nothing sorts or reverses rows, cells or columns")
     ar = ctx.repo.fn("table:Table.add_row")
     src = norm(ar.node)
-    ctx.check("self.rows.append(" in src and ("column._cells.append(" in src or "add_cell(" in src), ar.fq, "append", ar.where, "add_row appends to each column and to rows", "add_row no longer appends the new cells/row at the end")
+    ctx.shape("self.rows.append(" in src and ("column._cells.append(" in src or "add_cell(" in src), ar.fq, "append", ar.where, "add_row appends to each column and to rows", "add_row no longer appends the new cells/row at the end")
     tm = ctx.repo.mod("table")
     bad = []
     for f in tm.functions.values():
@@ -303,7 +303,7 @@ def r7_5(ctx):
         ctx.check(ok, f.fq, "; ".join(norm(d) for d in defs), where, f"`{h.id}` starts at >= 1 and only grows by max({h.id}, ...)",
                   f"row height `{h.id}` is defined by {[norm(d) for d in defs]}: it can be 0 when every cell of a row renders to no lines, so that row vanishes instead of occupying a line of its own")
         # the same height is used for every cell of the row and for the line loop
-        ctx.check(f"for line_no in range({h.id})" in norm(f.node), f.fq, f"range({h.id})", where, "the row's lines are emitted for exactly that height", f"the emitted line count is not range({h.id})")
+        ctx.shape(f"for line_no in range({h.id})" in norm(f.node), f.fq, f"range({h.id})", where, "the row's lines are emitted for exactly that height", f"the emitted line count is not range({h.id})")
 
 
 def r7_6(ctx):
